@@ -188,6 +188,11 @@ class RawBody:
                         raise InjectedBase(f['tag'])
                     if f['kind'] == 'oserror':
                         raise InjectedOSError(f['tag'])
+                    from .director import make_special_exc
+
+                    sp = make_special_exc(f['kind'], f['tag'])
+                    if sp is not None:
+                        raise sp
                     raise InjectedError(f['tag'])
         chunk = self.data[self.pos:self.pos + want]
         self.pos += len(chunk)
@@ -404,6 +409,11 @@ class FakeS3:
             raise InjectedBase(f['tag'])
         if kind == 'oserror':
             raise InjectedOSError(f['tag'])
+        from .director import make_special_exc
+
+        sp = make_special_exc(kind, f['tag'])
+        if sp is not None:
+            raise sp
         raise InjectedError(f['tag'])
 
     def _error_response(self, request, e):
